@@ -112,6 +112,9 @@ func isOpaqueNamed(t types.Type) bool {
 		switch p + "." + n.Obj().Name() {
 		case "net/http.Request", "net/url.URL", "net/http.Response", "net/http.Client":
 			return false
+		case "database/sql.NullTime", "database/sql.NullString", "database/sql.NullInt64", "database/sql.NullBool":
+			// plain data carriers filled by Scan: their fields are ordinary values
+			return false
 		}
 		return true
 	}
